@@ -120,3 +120,15 @@ func DialContext(d *net.Dialer, ctx context.Context, network, addr string) (net.
 func Dial(d *net.Dialer, network, addr string) (net.Conn, error) {
 	return DialContext(d, context.Background(), network, addr)
 }
+
+// DialContextFunc / DialFunc stand in for the method values d.DialContext and
+// d.Dial.
+func DialContextFunc(d *net.Dialer) func(ctx context.Context, network, addr string) (net.Conn, error) {
+	return func(ctx context.Context, network, addr string) (net.Conn, error) {
+		return DialContext(d, ctx, network, addr)
+	}
+}
+
+func DialFunc(d *net.Dialer) func(network, addr string) (net.Conn, error) {
+	return func(network, addr string) (net.Conn, error) { return Dial(d, network, addr) }
+}
